@@ -55,11 +55,11 @@ type CloseSpec struct {
 }
 
 type Cfg struct {
-	Name         string
-	Filter       int // controller level filter (hx.MkFilter index)
+	Name   string
+	Filter int // controller level filter (hx.MkFilter index)
 	// SlowOn: the controller's filter takes one (virtual) second to decide about objects of this name with a version
 	// above 1 (a slow user predicate): the controller is legitimately busy while watch frames keep arriving
-	SlowOn string
+	SlowOn       string
 	Period       time.Duration
 	Pre          []Mut
 	Hist         []Mut
